@@ -177,4 +177,4 @@ ASSUME = [
 if __name__ == '__main__':
     tier = sys.argv[1] if len(sys.argv) > 1 else 'quick'
     sys.exit(run_check('C01', tier, layers('C01', tier), assumptions=ASSUME,
-                       cap_s=240 if tier == 'quick' else 3000))
+                       cap_s=240 if tier == 'quick' else 6000))
